@@ -15,6 +15,9 @@ from ..loader import AnalysisError, Tree, unparse, walk_function
 from ..report import Check
 from ..rules import (
     DEEP_SOURCES,
+    MObj,
+    ModelExec,
+    ModelRaise,
     argument_sources,
     check_arity,
     reach_functions,
@@ -149,71 +152,261 @@ def check_precedence(ctx: Check, tree: Tree, prefixes: tuple[str, ...]) -> int:
     return n
 
 
+# ---------------------------------------------------------------------------- the substitution hooks on a model
+#
+# R-DESCEND and R-PROPAGATE state what `_xreplace` / `_eval_subs` return for which instance and rule.  The
+# hooks are interpreted (sa/rules.py ModelExec; helper functions of the package are entered) on model
+# instances with up to three field values of every kind that matters - an expression that reports a
+# replacement, one that does not, an expression kept in a non-SymPy field, a plain attribute value that
+# is / is not a key of the rule, a class object that merely HAS the method - and compared with what the
+# specification returns for the same model.  How the loop is spelt does not matter.
+
+_MOD = "ampform.sympy._decorator"
+_FREE_SYMBOL_VIEWS = ("free_symbols", "atoms", "has", "find")
+
+
+class _Scenario:
+    """One model instance of an @unevaluated class together with a substitution request."""
+
+    def __init__(self, kinds: tuple[str, ...]) -> None:
+        self.kinds = kinds
+        self.visits: dict[int, list] = {}
+        self.values: list[MObj] = []
+        self.results: dict[int, MObj] = {}
+        self.bad_calls: list[str] = []
+        fields = []
+        for i, kind in enumerate(kinds):
+            sympify = kind in {"expr-hit", "expr-miss"}
+            fields.append(MObj(f"field a{i}", {"name": f"a{i}", "metadata": {"sympify": sympify}}, kinds={"Field"}))
+            if kind.startswith("expr") or kind.startswith("attr-expr"):
+                v = MObj(f"a{i}: expression ({kind})", kinds={"expr"})
+                v.attrs["__lacks__"] = ()
+            elif kind.startswith("class"):
+                v = MObj(f"a{i}: class object ({kind})", kinds={"class"}, open=False)
+            else:
+                v = MObj(f"a{i}: plain value ({kind})", kinds={"plain"}, open=False)
+            self.values.append(v)
+        self.me = MObj("self", kinds={"expr"})
+        self.me.attrs.update({f"a{i}": v for i, v in enumerate(self.values)})
+        self.me.attrs.update({
+            "__dataclass_fields__": fields,
+            "args": tuple(v for v, f in zip(self.values, fields) if f.attrs["metadata"]["sympify"]),
+            "func": self._rebuild,
+            "is_Mul": False,
+            "free_symbols": set(),
+            "atoms": lambda a, k: set(),
+            "has": lambda a, k: False,
+            "find": lambda a, k: set(),
+        })
+
+    @staticmethod
+    def _rebuild(args, kwargs):
+        return MObj("self.func(" + ", ".join(map(repr, args)) + ")", {"__rebuilt__": (tuple(args), dict(kwargs)), "is_Mul": False}, kinds={"expr"})
+
+    def describe(self) -> str:
+        return "(" + ", ".join(self.kinds) + ")"
+
+
+def _same_object(got, want) -> bool:
+    if isinstance(want, tuple) and want and want[0] == "rebuilt":
+        if not (isinstance(got, MObj) and "__rebuilt__" in got.attrs):
+            return False
+        args, kwargs = got.attrs["__rebuilt__"]
+        return not kwargs and len(args) == len(want[1]) and all(x is y for x, y in zip(args, want[1]))
+    return got is want
+
+
+def _show(v) -> str:
+    if isinstance(v, tuple) and v and v[0] == "rebuilt":
+        return "self.func(" + ", ".join(map(repr, v[1])) + ")"
+    if isinstance(v, tuple) and v and v[0] == "raises":
+        return f"raises {v[1]}"
+    if isinstance(v, tuple):
+        return "(" + ", ".join(_show(x) for x in v) + ")"
+    return repr(v)
+
+
+def _xreplace_scenarios():
+    import itertools
+
+    kinds = ("expr-hit", "expr-miss", "attr-expr-hit", "plain-in", "plain-out", "class-in", "class-out")
+    outside = tuple(k for k in kinds if not k.endswith("-in"))
+    for rule_kind in ("mapping", "mapping with self as key", "empty mapping", "not a Mapping"):
+        pool = kinds if rule_kind.startswith("mapping") else outside
+        for n in range(4 if rule_kind == "mapping" else 3):
+            for combo in itertools.product(pool, repeat=n):
+                yield rule_kind, combo
+
+
+def _run_xreplace(tree: Tree, fn, rule_kind: str, combo: tuple[str, ...]):
+    """(scenario, outcome, expected, arguments that had to be descended into)."""
+    sc = _Scenario(combo)
+    keys = {v: MObj(f"rule[a{i}]") for i, (v, k) in enumerate(zip(sc.values, combo)) if k.endswith("-in")}
+    dummy = MObj("some sub-expression (a key that is no free symbol)")
+    if rule_kind == "empty mapping":
+        rule: object = {}
+    elif rule_kind == "not a Mapping":
+        rule = MObj("rule (not a Mapping)", {"__contains__": lambda a, k: a[0] in keys, "__getitem__": lambda a, k: keys[a[0]], "__bool__": lambda a, k: True,
+                                                "__iter__": lambda a, k: [dummy, *keys], "__len__": lambda a, k: len(keys) + 1}, kinds={"rule"})
+    else:
+        rule = {dummy: MObj("its replacement"), **keys}
+        if rule_kind == "mapping with self as key":
+            rule[sc.me] = MObj("rule[self]")
+    for i, (v, kind) in enumerate(zip(sc.values, combo)):
+        if "expr" in kind:
+            new = MObj(f"a{i} with the rule applied") if kind.endswith("hit") else v
+            sc.results[i] = new
+
+            def xreplace(a, k, i=i, v=v, new=new):
+                sc.visits.setdefault(i, []).append(a)
+                if k or len(a) != 1 or a[0] is not rule:
+                    sc.bad_calls.append(f"a{i}._xreplace({', '.join(map(repr, a))}) is not called with the rule")
+                return (new, new is not v)
+
+            v.attrs["_xreplace"] = xreplace
+        elif kind.startswith("class"):
+            def unbound(a, k):
+                raise ModelRaise("TypeError", "_xreplace() of a class object called without an instance")
+
+            v.attrs["_xreplace"] = unbound
+    # specification
+    if rule_kind == "mapping with self as key":
+        want = (rule[sc.me], True)
+        must_visit: list[int] = []
+    elif rule_kind == "empty mapping":
+        want = (sc.me, False)
+        must_visit = []
+    else:
+        results, flags = [], []
+        for i, (v, kind) in enumerate(zip(sc.values, combo)):
+            if "expr" in kind:
+                results.append(sc.results[i])
+                flags.append(sc.results[i] is not v)
+            elif isinstance(rule, dict):
+                results.append(rule.get(v, v))
+                flags.append(v in rule)
+            else:
+                results.append(v)
+                flags.append(False)
+        want = ((("rebuilt", results), True) if any(flags) else (sc.me, False))
+        must_visit = [i for i, kind in enumerate(combo) if "expr" in kind]
+    ex = ModelExec(tree)
+    try:
+        got = ex.call_function(fn, [sc.me, rule])
+    except ModelRaise as exc:
+        got = ("raises", str(exc))
+    return sc, got, want, must_visit
+
+
+def _outcome_ok_pair(got, want) -> bool:
+    return isinstance(got, tuple) and len(got) == 2 and got[0] != "raises" and isinstance(got[1], bool) and got[1] is want[1] and _same_object(got[0], want[0])
+
+
+def _subs_scenarios():
+    import itertools
+
+    kinds = ("expr-hit", "expr-miss", "attr-expr-hit", "plain", "class")
+    for n in range(4):
+        for combo in itertools.product(kinds, repeat=n):
+            for hints in ({}, {"hack2": True}) if n < 3 else ({},):
+                yield combo, hints
+
+
+def _run_subs(tree: Tree, fn, combo: tuple[str, ...], hints: dict):
+    sc = _Scenario(combo)
+    old, new = MObj("old"), MObj("new")
+    for i, (v, kind) in enumerate(zip(sc.values, combo)):
+        if "expr" in kind:
+            res = MObj(f"a{i} with old -> new") if kind.endswith("hit") else v
+            sc.results[i] = res
+
+            def subs(a, k, i=i, v=v, res=res):
+                sc.visits.setdefault(i, []).append(a)
+                if len(a) != 2 or a[0] is not old or a[1] is not new:
+                    sc.bad_calls.append(f"a{i}._subs({', '.join(map(repr, a))}) does not pass (old, new) in this order")
+                    return MObj(f"a{i} with the wrong replacement")
+                return res
+
+            v.attrs["_subs"] = subs
+            v.attrs["_eval_subs"] = subs
+            v.attrs["subs"] = subs
+        elif kind == "class":
+            def unbound(a, k):
+                raise ModelRaise("TypeError", "_subs() of a class object called without an instance")
+
+            v.attrs["_subs"] = unbound
+            v.attrs["_eval_subs"] = unbound
+    results = [sc.results.get(i, v) for i, v in enumerate(sc.values)]
+    want = ("rebuilt", results) if any(r is not v for r, v in zip(results, sc.values)) else sc.me
+    ex = ModelExec(tree)
+    try:
+        got = ex.call_function(fn, [sc.me, old, new], dict(hints))
+    except ModelRaise as exc:
+        got = ("raises", str(exc))
+    return sc, got, want, [i for i, kind in enumerate(combo) if "expr" in kind]
+
+
+def _hook_function(tree: Tree, attr: str, default: str):
+    hooks = installed_hooks(tree)
+    if attr in hooks:
+        fn = tree.funcs.get(hooks[attr][2] or "")
+        if fn is None:
+            raise AnalysisError(f"hook {attr} = {unparse(hooks[attr][0])} cannot be resolved to a function")
+        return fn
+    fn = tree.funcs.get(f"{_MOD}::{default}")
+    if fn is None:
+        raise AnalysisError(f"vanished anchor: {default}")
+    return fn
+
+
+def _model_hook(tree: Tree, attr: str):
+    """Run every scenario of one hook: (fn, number of scenarios, wrong results, arguments not descended into)."""
+    wrong: list[str] = []
+    skipped: list[str] = []
+    consulted: set[str] = set()
+    n = 0
+    if attr == "_xreplace":
+        fn = _hook_function(tree, attr, "_xreplace_method")
+        runs = ((f"{_Scenario(c).describe()}, rule: {rk}", _run_xreplace(tree, fn, rk, c), True) for rk, c in _xreplace_scenarios())
+    else:
+        fn = _hook_function(tree, attr, "_eval_subs_method")
+        runs = ((f"{_Scenario(c).describe()}" + (f", hints {h}" if h else ""), _run_subs(tree, fn, c, h), False) for c, h in _subs_scenarios())
+    for label, (sc, got, want, must_visit), pair in runs:
+        n += 1
+        ok = _outcome_ok_pair(got, want) if pair else _same_object(got, want)
+        if sc.bad_calls:
+            ok = False
+        if not ok:
+            wrong.append(f"fields {label}: returns {_show(got)}, specified {_show(want)}" + (f" [{sc.bad_calls[0]}]" if sc.bad_calls else ""))
+        missed = [i for i in must_visit if i not in sc.visits]
+        if missed:
+            views = sorted(set(sc.me.reads) & set(_FREE_SYMBOL_VIEWS))
+            consulted |= set(views)
+            skipped.append(f"fields {label}: " + ", ".join(f"a{i}" for i in missed) + " not descended into" + (f" (the hook consulted self.{views[0]})" if views else ""))
+    return fn, n, wrong, skipped, sorted(consulted)
+
+
 def check_descent(ctx: Check, tree: Tree) -> None:
     """R-DESCEND: the substitution hooks visit every argument whenever the rule is non-empty.
 
     They re-implement Basic._subs / Basic._xreplace for classes with non-SymPy fields.  A
     replacement key may be ANY sub-expression, so whether an argument has to be visited
-    cannot be decided from the free symbols of the expression: the only admissible
-    conditions around the argument loop are tests of the rule itself."""
+    cannot be decided from the free symbols of the expression.  Decided on the model: in every
+    scenario (non-empty rule that does not contain the instance itself) every field value that is an
+    expression - in a SymPy field or not - receives the recursive call."""
     hooks = installed_hooks(tree)
-    for attr, param_idx in (("_xreplace", 1), ("_eval_subs", 1)):
+    for attr in ("_xreplace", "_eval_subs"):
         if attr not in hooks:
             continue
-        _, _, resolved = hooks[attr]
-        fn = tree.funcs.get(resolved or "")
-        if fn is None:
-            continue
-        rule_params = set(fn.params[1:])
-        loops = [n for n in walk_function(fn.node, nested=False) if isinstance(n, ast.For)]
-        arg_loops = []
-        from ..dataflow import RD
-
-        rd = RD(fn.node)
-        for loop in loops:
-            srcs = [unparse(loop.iter)] + [unparse(d.value) for d in rd.closure(rd.uses(loop.iter)) if d.value is not None]
-            if any("_get_arguments(self)" in t or "self.args" in t for t in srcs):
-                arg_loops.append(loop)
-        if not arg_loops:
-            raise AnalysisError(f"{fn.qual}: no loop over the instance's arguments found")
-        loop = arg_loops[0]
-        from ..loader import ancestors
-
-        bad, unknown = [], []
-        for anc in ancestors(loop):
-            if anc is fn.node:
-                break
-            if not isinstance(anc, ast.If):
-                continue
-            conj = anc.test.values if isinstance(anc.test, ast.BoolOp) and isinstance(anc.test.op, ast.And) else [anc.test]
-            for t in conj:
-                txt = unparse(t)
-                if isinstance(t, ast.Name) and t.id in rule_params:
-                    continue
-                if isinstance(t, ast.Call) and unparse(t.func) == "isinstance" and t.args and unparse(t.args[0]) in rule_params:
-                    continue
-                if isinstance(t, ast.Compare) and "self" in txt and any(p in txt for p in rule_params) and isinstance(t.ops[0], (ast.In, ast.NotIn)):
-                    continue
-                # anything else: a pre-filter - look at what it consults
-                consulted = txt
-                for c in ast.walk(t):
-                    if isinstance(c, ast.Call):
-                        callee = tree.callee(c, fn)
-                        if callee in tree.funcs:
-                            consulted += " " + unparse(tree.funcs[callee].node)
-                if "free_symbols" in consulted or ".atoms(" in consulted:
-                    bad.append(txt)
-                else:
-                    unknown.append(txt)
+        fn, n, _wrong, skipped, consulted = _model_hook(tree, attr)
         key = f"{fn.qual}::descends-into-all-arguments"
-        if bad:
-            ctx.violation("R-DESCEND", key, tree.loc(loop), f"{fn.qual}: the argument loop is guarded by `{bad[0][:60]}`, which decides from free symbols whether anything can be replaced",
-                          "xreplace/subs keys may be arbitrary sub-expressions (or non-SymPy attribute values), not only free symbols: such replacements are silently skipped inside these classes, so replace-then-unfold differs from unfold-then-replace")
-        elif unknown:
-            raise AnalysisError(f"{fn.qual}: argument loop guarded by `{unknown[0][:60]}` - cannot decide whether every argument is still visited")
-        else:
-            filtered = [n for n in walk_function(loop) if isinstance(n, (ast.Break,))]
-            ctx.verdict(not filtered, "R-DESCEND", key, tree.loc(loop), f"{fn.qual}: every argument is visited whenever the rule is non-empty (loop guarded by tests of the rule only)")
+        why = None
+        if skipped:
+            why = {"scenarios": skipped[:4], "count": len(skipped)}
+            if consulted:
+                why["why"] = (f"the hook decides from self.{consulted[0]} whether anything can be replaced: xreplace/subs keys may be arbitrary sub-expressions (or non-SymPy attribute values), "
+                              "not only free symbols: such replacements are silently skipped inside these classes, so replace-then-unfold differs from unfold-then-replace")
+        ctx.verdict(not skipped, "R-DESCEND", key, tree.loc(fn.node), f"{fn.qual}: every field value that is an expression receives the recursive call whenever the rule is non-empty ({n} model instances)", why)
 
 
 def check_content_injective(ctx: Check, tree: Tree, hook_fn) -> None:
@@ -228,12 +421,9 @@ def check_content_injective(ctx: Check, tree: Tree, hook_fn) -> None:
     alternative and is recorded as an advisory.)"""
     from ..dataflow import RD
 
-    key_fns = []
-    for node in walk_function(hook_fn.node):
-        if isinstance(node, ast.Call) and any(isinstance(a, ast.Call) and unparse(a.func) == "getattr" for a in node.args):
-            callee = tree.callee(node, hook_fn)
-            if callee in tree.funcs:
-                key_fns.append(tree.funcs[callee])
+    # the key functions: the functions of the package that the hook applies to a single field value - found by
+    # interpreting the hook on a model instance (whether the call sits in a generator, a loop, a map() or a helper)
+    key_fns = hashable_content_model(tree, hook_fn)["key_fns"]
     if not key_fns:
         ctx.ok("R-INJECTIVE", tree.loc(hook_fn.node), f"{hook_fn.qual}: attribute values enter the hashable content unchanged")
         return
@@ -411,170 +601,61 @@ def check_internal_rebuild(ctx: Check, tree: Tree) -> None:
 def check_change_propagation(ctx: Check, tree: Tree) -> None:
     """R-PROPAGATE: the substitution hooks return a rebuilt instance exactly when a replacement
     happened somewhere below, built from the per-argument results:
-      _xreplace:  (rule[self], True) iff `self in rule`; for every argument the pair (result,
-                  replaced?) of `arg._xreplace(rule)` or (rule.get(arg, arg), arg in rule) or (arg,
-                  False); result appended for EVERY argument; hit accumulates the flags from False;
-                  (self.func(*results), True) iff hit, else (self, False).
-      _eval_subs: new = old_arg._subs(old, new, **hints) with the hook's own (old, new) in that order;
-                  `if not same(new_attr, old_arg)`: hit = True AND the slot of that argument is
-                  replaced; self.func(*new_args) iff hit, else self."""
-    from ..dataflow import RD
+      _xreplace:  (rule[self], True) iff `self in rule`; (self, False) for an empty rule; else for every
+                  field value the pair (result, replaced?) of `value._xreplace(rule)` if it is an
+                  expression (has the method and is not a class), (rule.get(value, value), value in rule)
+                  for a Mapping, (value, False) otherwise; (self.func(*results), True) iff some flag
+                  is set, else (self, False).
+      _eval_subs: value._subs(old, new, **hints) with the hook's own (old, new) in that order for every
+                  field value that is an expression; self.func(*results) iff some result is not the
+                  value it came from, else self.
+    Decided by interpreting the hooks on model instances (see above) and comparing with this
+    specification, scenario by scenario."""
+    for attr, what in (("_xreplace", "_xreplace hook: (rule[self], True) iff self in rule; every argument's result collected; rebuilt instance iff some argument reported a replacement"),
+                       ("_eval_subs", "_eval_subs hook: arg._subs(old, new) per argument; a differing result sets the hit flag and replaces that argument's slot; rebuilt instance iff hit, else self")):
+        fn, n, wrong, _skipped, _ = _model_hook(tree, attr)
+        ctx.stats[f"model_instances{attr}"] = n
+        ctx.verdict(not wrong, "R-PROPAGATE", f"{fn.qual}::change-propagation", tree.loc(fn.node), f"{what} ({n} model instances)",
+                    {"scenarios": wrong[:4], "count": len(wrong)} if wrong else None)
 
-    mod = "ampform.sympy._decorator"
-    # ------------------------------------------------------------------ _xreplace
-    fn = tree.funcs.get(f"{mod}::_xreplace_method")
-    if fn is None:
-        raise AnalysisError("vanished anchor: _xreplace_method")
-    rd = RD(fn.node)
-    self_, rule = fn.params[0], fn.params[1]
-    problems: list[str] = []
-    rets = [r for r in walk_function(fn.node, nested=False) if isinstance(r, ast.Return)]
-    hit_names = set()
-    for r in rets:
-        v = r.value
-        if not (isinstance(v, ast.Tuple) and len(v.elts) == 2 and isinstance(v.elts[1], ast.Constant) and isinstance(v.elts[1].value, bool)):
-            problems.append(f"`{unparse(r)}` is not (expression, literal flag)")
-            continue
-        obj, flag = v.elts[0], v.elts[1].value
-        guards = [a for a in _ancestors(r) if isinstance(a, ast.If)]
-        if isinstance(obj, ast.Name) and obj.id == self_:
-            if flag is not False:
-                problems.append("`return self, True` - nothing was replaced")
-        elif unparse(obj) == f"{rule}[{self_}]":
-            if flag is not True or not any(unparse(g.test).replace(" ", "") == f"{self_}in{rule}" for g in guards):
-                problems.append(f"`{unparse(r)}` is not guarded by `{self_} in {rule}` / flag is not True")
-        elif isinstance(obj, ast.Call) and unparse(obj.func) == f"{self_}.func":
-            g_hit = [g for g in guards if isinstance(g.test, ast.Name) and g.test.id not in {rule}]
-            if flag is not True or not g_hit:
-                problems.append(f"`{unparse(r)}`: the rebuilt instance is not returned under `if <hit>` with flag True")
-            hit_names |= {g.test.id for g in g_hit}
-        else:
-            problems.append(f"unexpected return `{unparse(r)}`")
-    if len(hit_names) != 1:
-        problems.append(f"hit flag not identified ({sorted(hit_names)})")
-    else:
-        hit = next(iter(hit_names))
-        hdefs = [d for d in rd.defs if d.name == hit]
-        inits = [d for d in hdefs if d.kind == "assign"]
-        accs = [d for d in hdefs if d.kind == "aug"]
-        if not (len(inits) == 1 and isinstance(inits[0].value, ast.Constant) and inits[0].value.value is False):
-            problems.append(f"`{hit}` does not start as False")
-        if not accs:
-            problems.append(f"`{hit}` never accumulates the per-argument flags")
-        for d in accs:
-            node = d.node
-            if not (isinstance(node, ast.AugAssign) and isinstance(node.op, ast.BitOr) and isinstance(node.value, ast.Name)):
-                problems.append(f"`{unparse(node)}` is not `{hit} |= <flag of this argument>`")
-                continue
-            if any(isinstance(a, ast.If) for a in _ancestors(node) if a is not fn.node and not isinstance(a, (ast.For, ast.FunctionDef)) and unparse(getattr(a, "test", ast.Constant(1))) != rule):
-                problems.append(f"`{unparse(node)}` is conditional")
-            for fd in rd.reaching(node.value):
-                ok_flag = (
-                    (fd.index == 1 and isinstance(fd.value, ast.Call) and unparse(fd.value.func).endswith("._xreplace") and [unparse(a) for a in fd.value.args] == [rule])
-                    or (isinstance(fd.value, ast.Constant) and fd.value.value is False)
-                    or unparse(fd.value).replace(" ", "") in {f"bool(arginrule)".replace("arg", unparse(fd.value.args[0].left) if isinstance(fd.value, ast.Call) and fd.value.args and isinstance(fd.value.args[0], ast.Compare) else "arg").replace("rule", rule)}
-                    or (isinstance(fd.value, ast.Compare) and len(fd.value.ops) == 1 and isinstance(fd.value.ops[0], ast.In) and unparse(fd.value.comparators[0]) == rule)
-                )
-                if isinstance(fd.value, ast.Call) and unparse(fd.value.func) == "bool" and fd.value.args and isinstance(fd.value.args[0], ast.Compare):
-                    c = fd.value.args[0]
-                    ok_flag = len(c.ops) == 1 and isinstance(c.ops[0], ast.In) and unparse(c.comparators[0]) == rule
-                if not ok_flag:
-                    problems.append(f"flag `{unparse(fd.node)[:60]}` is not (second component of arg._xreplace({rule}) | arg in {rule} | False)")
-        # results appended once per argument
-        appends = [n for n in walk_function(fn.node) if isinstance(n, ast.Call) and isinstance(n.func, ast.Attribute) and n.func.attr == "append"]
-        ok_app = False
-        for a in appends:
-            par_loops = [x for x in _ancestors(a) if isinstance(x, ast.For)]
-            in_if = [x for x in _ancestors(a) if isinstance(x, ast.If) and par_loops and any(x is y for y in ast.walk(par_loops[0]))]
-            if par_loops and not in_if and len(a.args) == 1 and isinstance(a.args[0], ast.Name):
-                srcs = []
-                for d in rd.reaching(a.args[0]):
-                    srcs.append(unparse(d.value) if d.value is not None else d.kind)
-                    if not ((d.index == 0 and isinstance(d.value, ast.Call) and unparse(d.value.func).endswith("._xreplace"))
-                            or (isinstance(d.value, ast.Call) and unparse(d.value.func) == f"{rule}.get" and len(d.value.args) == 2 and unparse(d.value.args[0]) == unparse(d.value.args[1]))
-                            or (isinstance(d.value, ast.Name) and d.value.id == unparse(par_loops[0].target))):
-                        problems.append(f"result `{unparse(d.node)[:60]}` is not (first component of arg._xreplace | {rule}.get(arg, arg) | arg)")
-                ok_app = True
-        if not ok_app:
-            problems.append("the per-argument result is not appended unconditionally for every argument")
-    # which arguments are descended into: exactly those that have the method and are not classes
-    for c in [c for c in walk_function(fn.node) if isinstance(c, ast.Call) and isinstance(c.func, ast.Attribute) and c.func.attr == "_xreplace"]:
-        conds = [a for a in _ancestors(c) if isinstance(a, ast.If)]
-        subject = unparse(c.func.value)
-        def selects(test: ast.AST) -> bool:
-            ops = test.values if isinstance(test, ast.BoolOp) and isinstance(test.op, ast.And) else [test]
-            has = any(isinstance(o, ast.Call) and unparse(o.func) == "hasattr" and len(o.args) == 2 and unparse(o.args[0]) == subject
-                      and isinstance(o.args[1], ast.Constant) and o.args[1].value == "_xreplace" for o in ops)
-            rest = [o for o in ops if not (isinstance(o, ast.Call) and unparse(o.func) == "hasattr")]
-            rest_ok = all(isinstance(o, ast.UnaryOp) and isinstance(o.op, ast.Not) and isinstance(o.operand, ast.Call) and unparse(o.operand.func) == "isclass"
-                          and [unparse(a) for a in o.operand.args] == [subject] for o in rest)
-            return has and rest_ok
 
-        if not any(selects(g.test) and any(c is n for b in g.body for n in ast.walk(b)) for g in conds):
-            problems.append(f"`{unparse(c)}` is not selected by `hasattr({subject}, '_xreplace') and not isclass({subject})`")
-    ctx.verdict(not problems, "R-PROPAGATE", f"{fn.qual}::change-propagation", tree.loc(fn.node),
-                "_xreplace hook: (rule[self], True) iff self in rule; every argument's result collected; rebuilt instance iff some argument reported a replacement", problems or None)
+def hashable_content_model(tree: Tree, hook_fn) -> dict:
+    """Interpret the _hashable_content hook on a model instance with the fields s0, s1 (SymPy arguments) and
+    n0, n1, n2 (non-SymPy attributes: a plain value, a class object, None).  A function of the package that is
+    called with exactly one field value is a KEY FUNCTION (its result stands for that value); it is not
+    entered but recorded.  Returns which non-SymPy values are missing from the returned content, which SymPy
+    field values were added (through a key function), whether the inherited content is kept, and the key
+    functions."""
+    fields, values = [], {}
+    for name, sympify, kinds in (("s0", True, {"expr"}), ("n0", False, {"plain"}), ("s1", True, {"expr"}), ("n1", False, {"class"}), ("n2", False, {"plain"})):
+        fields.append(MObj(f"field {name}", {"name": name, "metadata": {"sympify": sympify}}, kinds={"Field"}))
+        values[name] = MObj(f"value of {name}", kinds=kinds, open=False)
+    inherited = (MObj("type(self)"), values["s0"], values["s1"])
+    me = MObj("self", {**values, "__dataclass_fields__": fields, "args": (values["s0"], values["s1"]),
+                       "__super__": MObj("super()", {"_hashable_content": lambda a, k: inherited})}, kinds={"expr"})
+    key_fns: dict[str, object] = {}
 
-    # ------------------------------------------------------------------ _eval_subs
-    fn = tree.funcs.get(f"{mod}::_eval_subs_method")
-    if fn is None:
-        raise AnalysisError("vanished anchor: _eval_subs_method")
-    rd = RD(fn.node)
-    self_, old, new = fn.params[0], fn.params[1], fn.params[2]
-    problems = []
-    subs_calls = [c for c in walk_function(fn.node) if isinstance(c, ast.Call) and isinstance(c.func, ast.Attribute) and c.func.attr == "_subs"]
-    if len(subs_calls) != 1:
-        raise AnalysisError(f"{fn.qual}: expected one recursive `_subs` call")
-    sc = subs_calls[0]
-    if [unparse(a) for a in sc.args[:2]] != [old, new]:
-        problems.append(f"recursive call `{unparse(sc)}` does not pass ({old}, {new}) in this order")
-    res_def = next((d for d in rd.defs if d.value is sc), None)
-    changed_ifs = []
-    for node in walk_function(fn.node):
-        if isinstance(node, ast.If) and res_def is not None and any(isinstance(n, ast.Name) and res_def in rd.reaching(n) for n in ast.walk(node.test)):
-            changed_ifs.append(node)
-    if len(changed_ifs) != 1:
-        problems.append("no single `if <result differs from the argument>` block")
-    else:
-        g = changed_ifs[0]
-        t = g.test
-        negated_same = isinstance(t, ast.UnaryOp) and isinstance(t.op, ast.Not) and isinstance(t.operand, ast.Call) and unparse(t.operand.func).endswith("_aresame")
-        differs = isinstance(t, ast.Compare) and len(t.ops) == 1 and isinstance(t.ops[0], ast.NotEq)
-        if not (negated_same or differs):
-            problems.append(f"`if {unparse(t)}` does not test that the result differs from the argument")
-        sets_hit = [s_ for s_ in g.body if isinstance(s_, ast.Assign) and isinstance(s_.value, ast.Constant) and s_.value.value is True]
-        stores = [s_ for s_ in g.body if isinstance(s_, ast.Assign) and isinstance(s_.targets[0], ast.Subscript) and isinstance(s_.value, ast.Name) and res_def in rd.reaching(s_.value)]
-        if not sets_hit:
-            problems.append("the change block does not set the hit flag")
-        if not stores:
-            problems.append("the change block does not store the new value in the slot of that argument")
-        else:
-            slot = stores[0].targets[0]
-            loops = [a for a in _ancestors(g) if isinstance(a, ast.For)]
-            idx_ok = loops and isinstance(loops[0].iter, ast.Call) and unparse(loops[0].iter.func) == "enumerate" and isinstance(loops[0].target, ast.Tuple) and unparse(slot.slice) == unparse(loops[0].target.elts[0])
-            if not idx_ok:
-                problems.append(f"`{unparse(stores[0])}` does not address the slot of the argument that is being visited")
-        if sets_hit:
-            hit = unparse(sets_hit[0].targets[0])
-            inits = [d for d in rd.defs if d.name == hit and isinstance(d.value, ast.Constant) and d.value.value is False]
-            if not inits:
-                problems.append(f"`{hit}` does not start as False")
-            rebuilt = [c for c in walk_function(fn.node) if isinstance(c, ast.Call) and unparse(c.func) == f"{self_}.func" and any(isinstance(a, ast.Starred) for a in c.args)]
-            under_hit = [c for c in rebuilt if any(isinstance(a, ast.If) and unparse(a.test) == hit for a in _ancestors(c))]
-            if not under_hit:
-                problems.append(f"the instance is not rebuilt under `if {hit}`")
-            finals = [r for r in walk_function(fn.node, nested=False) if isinstance(r, ast.Return) and isinstance(r.value, ast.Name) and r.value.id == self_]
-            if not finals or any(isinstance(a, ast.If) and unparse(a.test) == hit for r in finals for a in _ancestors(r)):
-                problems.append("`return self` is not the result when nothing changed")
-    # arguments may only be skipped when they cannot be substituted into: no _eval_subs / a class
-    subject = unparse(sc.func.value)
-    for node in walk_function(fn.node):
-        if isinstance(node, ast.If) and any(isinstance(b, ast.Continue) for b in node.body):
-            t = unparse(node.test).replace(" ", "").replace('"', "'")
-            if t not in {f"nothasattr({subject},'_eval_subs')", f"nothasattr({subject},'_subs')", f"isclass({subject})"}:
-                problems.append(f"`if {unparse(node.test)}: continue` skips arguments that can be substituted into")
-    ctx.verdict(not problems, "R-PROPAGATE", f"{fn.qual}::change-propagation", tree.loc(fn.node),
-                "_eval_subs hook: arg._subs(old, new) per argument; a differing result sets the hit flag and replaces that argument's slot; rebuilt instance iff hit, else self", problems or None)
+    def intercept(fn, args, kwargs):
+        if len(args) == 1 and not kwargs and any(args[0] is v for v in values.values()):
+            key_fns[fn.qual] = fn
+            return True, MObj(f"{fn.name}({args[0]!r})", {"__key_of__": args[0]}, open=False)
+        return False, None
+
+    ex = ModelExec(tree, intercept=intercept)
+    try:
+        got = ex.call_function(hook_fn, [me])
+    except ModelRaise as exc:
+        raise AnalysisError(f"{hook_fn.qual}: raises {exc} on the model instance") from None
+    if not isinstance(got, (tuple, list)):
+        raise AnalysisError(f"{hook_fn.qual}: returns {got!r} on the model instance, not a tuple")
+
+    def stands_for(item, v) -> bool:
+        return item is v or (isinstance(item, MObj) and item.attrs.get("__key_of__") is v)
+
+    missing = [n for n in ("n0", "n1", "n2") if not any(stands_for(x, values[n]) for x in got)]
+    wrapped_sympy = [n for n in ("s0", "s1") if any(isinstance(x, MObj) and x.attrs.get("__key_of__") is values[n] for x in got)]
+    has_super = all(any(x is y for x in got) for y in inherited)
+    return {"missing": missing, "wrapped_sympy": wrapped_sympy, "has_super": has_super, "key_fns": list(key_fns.values()), "entered": ex.entered}
 
 
 def count_nested_constructions(tree: Tree) -> list[str]:
@@ -644,49 +725,29 @@ def run(ctx: Check, tree: Tree) -> None:
         if resolved not in tree.funcs:
             raise AnalysisError(f"_hashable_content hook {unparse(value)} unresolved")
         fn = tree.funcs[resolved]
-        srcs = [s for f, _ in reach_functions(tree, fn, 2) for s in argument_sources(tree, f)]
-        field_srcs = [s for s in srcs if s["kind"] == "fields"]
-        returns_fields = False
-        from ..dataflow import RD
-
-        rd = RD(fn.node)
-        for ret, _uses in rd.returns:
-            if ret.value is None:
-                continue
-            names = {d.name for d in rd.closure(rd.uses(ret.value))}
-            for s in field_srcs:
-                # the comprehension is either inline in the return or bound to a local that reaches it
-                if any(s["node"] is n for n in ast.walk(ret.value)):
-                    returns_fields = True
-                for d in rd.defs:
-                    if d.value is not None and any(s["node"] is n for n in ast.walk(d.value)) and d.name in names:
-                        returns_fields = True
-        bad_filter = [
-            s for s in field_srcs if s["filter"] and not all("not" in f or "is False" in f or "== False" in f for f in s["filter"])
-        ]
-        has_super = any(
-            isinstance(n, ast.Call) and isinstance(n.func, ast.Attribute) and n.func.attr == "_hashable_content"
-            for n in walk_function(fn.node)
-        )
+        # what the hook returns is read off a model instance (two SymPy fields, three non-SymPy fields):
+        # helper functions, generator vs list vs map() make no difference
+        content = ctx.section(hashable_content_model, tree, fn)
+        missing, wrapped_sympy, has_super = (content["missing"], content["wrapped_sympy"], content["has_super"]) if content is not None else ([], [], True)
         if cond:
             ctx.violation("R-HASH", key + "::conditional", tree.loc(value), "the _hashable_content hook is only installed under a condition")
-        elif not field_srcs or not returns_fields:
+        elif missing and not wrapped_sympy:
             ctx.violation(
                 "R-HASH",
                 key + "::no-fields",
                 tree.loc(fn.node),
                 f"{fn.qual} does not return the values of the non-SymPy fields: instances that differ only in a non-SymPy attribute compare equal",
             )
-        elif bad_filter:
+        elif missing:
             ctx.violation(
                 "R-HASH",
                 key + "::filter",
-                tree.loc(bad_filter[0]["node"]),
-                f"{fn.qual} filters the fields with {bad_filter[0]['filter']}: non-SymPy fields are not the ones kept",
+                tree.loc(fn.node),
+                f"{fn.qual} keeps the values of the fields {wrapped_sympy} and drops {missing}: non-SymPy fields are not the ones kept",
             )
         elif not has_super:
             ctx.violation("R-HASH", key + "::no-super", tree.loc(fn.node), f"{fn.qual} drops the class/args part of the hashable content")
-        else:
+        elif content is not None:
             ctx.ok("R-HASH", tree.loc(value), f"cls._hashable_content = {unparse(value)}: unconditional, returns super content + getattr over non-SymPy fields")
         ctx.section(check_content_injective, ctx, tree, fn)
     n_nonsympy = sum(1 for c in classes.values() if c.non_sympy_fields)
